@@ -284,6 +284,16 @@ def parse_file(path, wanted=None):
                 funcs.setdefault("const " + mm.group(1), []).append(("const " + mm.group(1), "", mm.group(2), lines[i + 1:j]))
             i = j + 1
             continue
+        if ln.startswith("const ") and ln.endswith("= {"):
+            # associated / module constants with a body (e.g. the bitflags constants)
+            j = i + 1
+            while j < n and lines[j] != "}":
+                j += 1
+            mm = re.match(r"^const (.+): (.+) = \{$", ln)
+            if mm and (wanted is None or wanted("const " + mm.group(1))):
+                funcs.setdefault("const " + mm.group(1), []).append(("const " + mm.group(1), "", mm.group(2), lines[i + 1:j]))
+            i = j + 1
+            continue
         if ln.startswith("fn ") and ln.endswith("{"):
             j = i + 1
             while j < n and lines[j] != "}":
